@@ -598,6 +598,16 @@ V("c10-class-tolerance-via-type-self", "C10", "violation", "C10.R8", edits=[("dy
 V("c10-n-instance-tolerance", "C10", "pass", edits=[("dynamics/dynamics_base.py", "    ABSOLUTE_TOL = 10**-12\n", "    ABSOLUTE_TOL = 10**-12\n\n    def setTolerances(self, relative, absolute):\n        self.RELATIVE_TOL = relative\n        self.ABSOLUTE_TOL = absolute\n")])
 V("c16-mmae-innovation-raw-difference", "C16", "violation", "C16.R1", edits=[("estimation/adaptive/adaptive_filter.py", "            self.innovation = dot(\n                vstack([[x.innovation for x in self.models]]).T,\n                self.model_weights,\n            )", "            self.innovation = self.true_y - self.mean_pred_y")])
 
+# ------------------------------------------------------------------------------------ C12.R6
+OC = "physics/orbits/conversions.py"
+V("c12-eqe2coe-raan-quadrant", "C12", "violation", "C12.R6", edits=[(OC, "    raan = arctan2(p, q)\n    argp = arctan2(h, k) - II * raan", "    raan = arctan2(q, p)\n    argp = arctan2(h, k) - II * raan")])
+V("c12-eqe2coe-argp-sign", "C12", "violation", "C12.R6", edits=[(OC, "    argp = arctan2(h, k) - II * raan", "    argp = arctan2(h, k) + II * raan")])
+V("c12-coe2eqe-h-without-retro-factor", "C12", "violation", "C12.R6", edits=[(OC, "    h = ecc * sin(argp + II * raan)", "    h = ecc * sin(argp + raan)")])
+V("c12-coe2eqe-p-q-swapped", "C12", "violation", "C12.R6", edits=[(OC, "    p = tan(inc * 0.5) ** II * sin(raan)\n    q = tan(inc * 0.5) ** II * cos(raan)", "    p = tan(inc * 0.5) ** II * cos(raan)\n    q = tan(inc * 0.5) ** II * sin(raan)")])
+V("c12-coe2eqe-longitude-args-swapped", "C12", "violation", "C12.R6", edits=[(OC, "    mean_long = trueAnom2MeanLong(true_anom, ecc, raan, argp, retro=retro)\n    return sma, h, k, p, q, mean_long", "    mean_long = trueAnom2MeanLong(true_anom, ecc, argp, raan, retro=retro)\n    return sma, h, k, p, q, mean_long")])
+V("c12-n-coe2eqe-reordered-sum", "C12", "pass", edits=[(OC, "    h = ecc * sin(argp + II * raan)\n    k = ecc * cos(argp + II * raan)", "    lon_peri = II * raan + argp\n    h = sin(lon_peri) * ecc\n    k = cos(lon_peri) * ecc")])
+V("c12-n-coe2eqe-half-angle", "C12", "pass", edits=[(OC, "    p = tan(inc * 0.5) ** II * sin(raan)\n    q = tan(inc * 0.5) ** II * cos(raan)", "    tan_half = tan(inc / 2) ** II\n    p = tan_half * sin(raan)\n    q = tan_half * cos(raan)")])
+
 # ------------------------------------------------------------------------------------ memo soundness / cache coherence
 RED = "physics/transforms/reductions.py"
 _RED_OLD = "        if not eops:\n            eops = getEarthOrientationParameters(utc_date.date())\n\n        polar_motion = PolarMotion(eops.x_p, eops.y_p)\n        prec_nut = PrecessionNutation(\n            utc_date,"
